@@ -317,6 +317,8 @@ func (x *X) Join(kind string) (*Consumer, error) {
 		c.Http, err = x.W.HttpSub("/"+x.App+"/"+x.Stream+".ts", false)
 	case "rtsp":
 		c.Rtsp, err = x.W.RtspPlayer("rtsp://h/"+x.App+"/"+x.Stream, nil)
+	case "wsrtsp":
+		c.Rtsp, err = x.W.RtspPlayerWs("rtsp://h/"+x.App+"/"+x.Stream, nil)
 	default:
 		panic("consumer kind " + kind)
 	}
